@@ -458,6 +458,9 @@ def punctuation_root(tree, **params):
              if terminal.data['word'] in trees.PUNCT \
              and len(trees.children(terminal.parent)) > 1]
     for p in punct:
+        # an earlier move may have left p as the only child of its parent
+        if len(p.parent.children) < 2:
+            continue
         p.parent.children.remove(p)
         tree.children.append(p)
         p.parent = tree
